@@ -27,6 +27,10 @@ func init() {
 			"behaviour of the three Session.Set implementations for duplicates (C14-C17).",
 		Run: runC05,
 		Mutants: []Mutant{
+			{Name: "pool-count-carried-across-pools", File: "speaker/main.go",
+				Old: "\tfor pname, p := range pools.ByName {\n\t\tcnt := 0\n", New: "\tcnt := 0\n\tfor pname, p := range pools.ByName {\n", Expect: "POOL-OF-ADDRESSES"},
+			{Name: "empty-peer-node-selector-dropped", File: "internal/config/config.go",
+				Old: "\t\t\treturn nil, errors.Join(err, fmt.Errorf(\"failed to convert peer %s node selector\", p.Name))\n\t\t}\n", New: "\t\t\treturn nil, errors.Join(err, fmt.Errorf(\"failed to convert peer %s node selector\", p.Name))\n\t\t}\n\t\tif labelSelector.Empty() {\n\t\t\tcontinue\n\t\t}\n", Expect: "PEER-SELECTORS"},
 			{Name: "last-node-selector-wins", File: "internal/config/config.go",
 				Old: "\t\tfor _, s := range labelSelectors {\n\t\t\tnodeLabels := labels.Set(node.Labels)\n\t\t\tif s.Matches(nodeLabels) {\n\t\t\t\tres[node.Name] = true\n\t\t\t\tcontinue OUTER\n\t\t\t}\n\t\t}\n\t}\n\treturn res, nil",
 				New: "\t\tselected := false\n\t\tfor _, s := range labelSelectors {\n\t\t\tnodeLabels := labels.Set(node.Labels)\n\t\t\tselected = s.Matches(nodeLabels)\n\t\t}\n\t\tif selected {\n\t\t\tres[node.Name] = true\n\t\t\tcontinue OUTER\n\t\t}\n\t}\n\treturn res, nil", Expect: "every-matching-node"},
@@ -69,6 +73,8 @@ func init() {
 }
 
 func runC05(p *chk.Prog, r *chk.Report) {
+	c05PoolOfAddresses(p, r)
+	c05PeerSelectors(p, r)
 	// what is offered for a pool is what was attached to it (ATTACH, shared with C08)
 	c08Attach(p, r)
 	scratchRule(p, r, "speaker", "internal/bgp")
@@ -1052,4 +1058,72 @@ func c05MaskByValue(f *chk.Fn, g *chk.Graph, lit ast.Node, mask types.Object, ip
 		}
 	}
 	return true
+}
+
+// c05PoolOfAddresses: the pool handed to the protocol handlers is one that contains every address of the Service - the
+// count of contained addresses is per pool.
+func c05PoolOfAddresses(p *chk.Prog, r *chk.Report) {
+	x := r.Rule("POOL-OF-ADDRESSES", "B path", "in speaker.poolFor the counter of contained addresses that is compared with len(ips) starts at zero for every pool (declared inside the loop over pools.ByName, or reset there before the address loop)", 1)
+	f := need(x, p, "speaker", "", "poolFor")
+	if f == nil {
+		return
+	}
+	g := f.Graph()
+	pools := f.RangeLoops(func(e ast.Expr) bool { return f.MatchWith("P.ByName", e, chk.H("P", isParamIdx(f, 0))) != nil })
+	if len(pools) != 1 {
+		x.Fail("poolFor:pool-loop", f.Pos(), "no loop over pools.ByName")
+		return
+	}
+	n := 0
+	for _, s := range g.Find(func(nd ast.Node) bool { _, ok := nd.(*ast.IncDecStmt); return ok && chk.InBody(pools[0], nd) }) {
+		id, isId := ast.Unparen(s.Node.(*ast.IncDecStmt).X).(*ast.Ident)
+		if !isId {
+			continue
+		}
+		o := f.ObjOf(id)
+		// only counters that decide the answer
+		if len(g.FindPat("C == len(IPS)", chk.H("C", f.IsObj(o)))) == 0 && len(g.FindPat("C != len(IPS)", chk.H("C", f.IsObj(o)))) == 0 && len(g.FindPat("C < len(IPS)", chk.H("C", f.IsObj(o)))) == 0 {
+			continue
+		}
+		n++
+		fresh := o.Pos() > pools[0].Body.Pos() && o.Pos() < pools[0].Body.End()
+		if !fresh {
+			// reset at the top of every pool's iteration
+			for _, as := range g.Find(f.IsAssignPat("C", "Z", chk.H("C", f.IsObj(o)), chk.H("Z", f.IsInt(0)))) {
+				if chk.InBody(pools[0], as.Node) && f.LoopOf(as.Node) == ast.Stmt(pools[0]) && !loopCanSkip(g, pools[0], func(nd ast.Node) bool { return nd == as.Top }) {
+					fresh = true
+				}
+			}
+		}
+		x.Check("poolFor:count-is-per-pool", s.Pos(), fresh, "", "the count of contained addresses is carried from one pool to the next: a Service whose addresses lie in two pools is attributed to whichever pool completes the count (in map order) and its routes are built from that pool's advertisements")
+	}
+	if n == 0 {
+		x.OK("poolFor:count-is-per-pool", f.Pos(), "no counter compared with len(ips): containment is decided without counting")
+	}
+}
+
+// c05PeerSelectors: a peer's node selectors are alternatives; every one of them reaches the peer's configuration.
+func c05PeerSelectors(p *chk.Prog, r *chk.Report) {
+	x := r.Rule("PEER-SELECTORS", "B path", "in config.peerFromCR every element of p.Spec.NodeSelectors is converted and appended to the peer's NodeSelectors (the only way out of an iteration without the append is the error return); labels.Everything() is used only when the list is empty", 1)
+	f := need(x, p, "internal/config", "", "peerFromCR")
+	if f == nil {
+		return
+	}
+	g := f.Graph()
+	n := 0
+	for _, rs := range f.RangeLoops(func(e ast.Expr) bool {
+		return f.MatchWith("P.Spec.NodeSelectors", e, chk.H("P", isParamIdx(f, 0))) != nil
+	}) {
+		el := rangeVal(f, rs)
+		apps := g.Find(func(nd ast.Node) bool {
+			return chk.InBody(rs, nd) && f.IsAssignPat("L", "append(L, S)", chk.H("S", definedBy(g, "metav1.LabelSelectorAsSelector(&E)", chk.H("E", el))))(nd)
+		})
+		if len(apps) == 0 {
+			continue
+		}
+		n++
+		ok := len(apps) == 1 && !loopSkipsWithout(g, rs, func(nd ast.Node) bool { return nd == apps[0].Top }, chk.NoGuard) && !loopHasBreak(g, rs)
+		x.Check("peerFromCR:every-node-selector-kept", rs.Pos(), ok, "", "a node selector of the peer can be dropped (an empty selector, say): the remaining selectors no longer match the nodes the dropped one selected, the session is not started there and the peer is offered none of that node's routes")
+	}
+	x.Check("peerFromCR:selector-loop", f.Pos(), n == 1, "", "no loop converting p.Spec.NodeSelectors")
 }
